@@ -16,7 +16,7 @@ from vlib.pcsim import make_pc, run_pc_sim
 from vlib.runner import Check, Family, Outcome
 
 ACTIONS = ["createOffer", "createAnswer", "setLocalOffer", "setLocalAnswer", "setLocalImplicit", "setRemoteOffer", "setRemoteAnswer",
-           "setRemoteMismatched", "setRemoteDefective", "setLocalStaleAnswer", "close"]
+           "setRemoteMismatched", "setRemoteDefective", "setLocalStaleAnswer", "setLocalDefective", "close"]
 DEFECTS = ["no-ufrag", "no-pwd", "no-rtcp-mux", "actpass-answer"]
 
 
@@ -212,6 +212,22 @@ class Run:
             if x.state != "have-remote-offer":
                 d = x.created_answer or donor_answer
                 await self.call(x, a, lambda: pc.setLocalDescription(d), "InvalidStateError")
+            else:
+                self.skipped += 1
+        elif a == "setLocalDefective":
+            # the connection's own offer / answer with a line taken out (an application that munges SDP): state-legal, so
+            # the structural check is what has to refuse it - before anything changes
+            if x.state in ("stable", "have-local-offer", "have-remote-offer"):
+                try:
+                    good = await (pc.createAnswer() if x.state == "have-remote-offer" else pc.createOffer())
+                except Exception as exc:
+                    self.problem = ("create-raised", f"peer {x.idx} createOffer/createAnswer raised {exc!r} in state {x.state}")
+                    return
+                bad = RTCSessionDescription(sdp=make_defective(good.sdp, step.get("defect", "no-ufrag")), type=good.type)
+                if bad.sdp == good.sdp:
+                    self.skipped += 1
+                    return
+                await self.call(x, a, lambda: pc.setLocalDescription(bad), "ValueError", label=f"[{step.get('defect')}]")
             else:
                 self.skipped += 1
         elif a == "setLocalImplicit":
